@@ -383,6 +383,60 @@ def o_proto(case):
     return None
 
 
+@oracle
+def o_chdir(case):
+    """the per-series cache of the high-level drivers lives in the CURRENT working directory (interface.py 21-27): cached runs before and after
+    a change of directory within one process return the cache-less results, never raise, and a repeated request in the new directory is a hit"""
+    import bldfm.cache as cmod
+    import bldfm.interface as itf
+    from bldfm.config_parser import parse_config_dict
+    raw = dict(domain=dict(nx=8, ny=6, xmax=80.0, ymax=60.0, nz=4, modes=[8, 6], halo=10.0, ref_lat=50.0, ref_lon=11.0),
+               towers=[dict(name="T", lat=50.0002, lon=11.0003, z_m=3.0)],
+               met=dict(ustar=[0.3, 0.4][: case["steps"]] if case["steps"] > 1 else 0.3, mol=-100.0, wind_speed=3.0, wind_dir=240.0),
+               solver=dict(closure="MOST", footprint=True, precision="double"), parallel=dict(use_cache=True))
+    events = []
+    real = cmod.GreensFunctionCache
+
+    class Rec(real):
+        def get(self, *a, **k):
+            out = super().get(*a, **k)
+            events.append("H" if out is not None else "M")
+            return out
+    here = os.getcwd()
+    dirs = [tempfile.mkdtemp(prefix="c15w-", dir=here) for _ in range(2)]
+    cmod.GreensFunctionCache = Rec
+    old_itf = getattr(itf, "GreensFunctionCache", None)
+    if old_itf is not None:
+        itf.GreensFunctionCache = Rec
+    try:
+        cfg_nc = parse_config_dict(dict(raw, parallel=dict(use_cache=False)))
+        ref = [itf.run_bldfm_single(cfg_nc, cfg_nc.towers[0], met_index=i) for i in range(cfg_nc.met.n_timesteps)]
+        for d_i, d_ in enumerate(dirs):
+            os.chdir(d_)
+            for rep in range(2):
+                del events[:]
+                cfg = parse_config_dict(raw)
+                try:
+                    ser = itf.run_bldfm_timeseries(cfg, cfg.towers[0])
+                except Exception as e:  # noqa: BLE001
+                    return fail("C15/cwd/fatal", "a cached time-series run raises after the working directory changed (directory %d, run %d)" % (d_i + 1, rep + 1),
+                                None, "a result", repr(e)[:160], 0)
+                for i, (a, b) in enumerate(zip(ser, ref)):
+                    if not (np.array_equal(np.asarray(a["flx"]), np.asarray(b["flx"])) and np.array_equal(np.asarray(a["conc"]), np.asarray(b["conc"]))):
+                        return fail("C15/cwd/stale", "a cached run in directory %d (run %d, step %d) differs from the cache-less run" % (d_i + 1, rep + 1, i), None,
+                                    "bit-identical", "differs", 0)
+                if rep == 1 and events and "H" not in events:
+                    return fail("C15/cwd/ineffective", "a repeated cached run in directory %d was not served from the cache" % (d_i + 1), None, "H", "".join(events), 0)
+    finally:
+        os.chdir(here)
+        cmod.GreensFunctionCache = real
+        if old_itf is not None:
+            itf.GreensFunctionCache = old_itf
+        for d_ in dirs:
+            shutil.rmtree(d_, ignore_errors=True)
+    return None
+
+
 def seed_mix(rng):
     return int(rng.integers(3))
 
@@ -449,6 +503,8 @@ def run(rng, tier, deep):
             st["disagreements"].append(dict(what="cache history: impl trace %s vs model %s" % (" ".join(trace), " ".join(keep)), op=l[:600]))
         run_oracle(st, o_cache, dict(ops=[list(o) for o in h]))
     run_oracle(st, o_signature, dict())
+    for k in range(budget(tier, deep, 1, 3)):
+        run_oracle(st, o_chdir, dict(steps=1 + k % 2))
     for k in range(budget(tier, deep, 3, 12)):
         r = {}
         if k % 3 == 1:
